@@ -100,24 +100,24 @@ type Finding struct {
 
 // Report is what a harness writes for the python driver.
 type Report struct {
-	Harness   string                 `json:"harness"`
-	Seed      int64                  `json:"seed"`
-	Cases     int                    `json:"cases"`
-	Ops       int                    `json:"ops"`
-	Distinct  int                    `json:"distinct_nontrivial"`
-	Rule      string                 `json:"rule"`
-	Stats     map[string]int         `json:"stats"`
-	Samples   []interface{}          `json:"samples"`
-	Findings  []Finding              `json:"findings"`
-	Extra     map[string]interface{} `json:"extra,omitempty"`
-	WallS     float64                `json:"wall_s"`
-	start     time.Time
-	distinct  map[string]bool
-	maxFind   int
-	perSig    map[string]int
-	total     int
+	Harness    string                 `json:"harness"`
+	Seed       int64                  `json:"seed"`
+	Cases      int                    `json:"cases"`
+	Ops        int                    `json:"ops"`
+	Distinct   int                    `json:"distinct_nontrivial"`
+	Rule       string                 `json:"rule"`
+	Stats      map[string]int         `json:"stats"`
+	Samples    []interface{}          `json:"samples"`
+	Findings   []Finding              `json:"findings"`
+	Extra      map[string]interface{} `json:"extra,omitempty"`
+	WallS      float64                `json:"wall_s"`
+	start      time.Time
+	distinct   map[string]bool
+	maxFind    int
+	perSig     map[string]int
+	total      int
 	oracleKept int
-	maxSample int
+	maxSample  int
 }
 
 func NewReport(name string, seed int64) *Report {
@@ -125,7 +125,23 @@ func NewReport(name string, seed int64) *Report {
 		distinct: map[string]bool{}, maxFind: 20, maxSample: 5, Extra: map[string]interface{}{}}
 }
 
-func (r *Report) Stat(k string) { r.Stats[k]++ }
+// CurrentFile, when set (the harness's -out path + ".current"), receives the case that is about to run. If the process
+// dies inside the library under test (a fatal error, a crash in a goroutine of the library) no report is written; the
+// driver then takes the case from this file as the failing input instead of reporting only "harness produced no report".
+var CurrentFile string
+
+// Current records the case that is about to run (see CurrentFile). Cheap: one small file write per case.
+func Current(property, what string, replay interface{}) {
+	if CurrentFile == "" {
+		return
+	}
+	b, err := json.Marshal(map[string]interface{}{"property": property, "what": what, "replay": replay})
+	if err == nil {
+		_ = os.WriteFile(CurrentFile, b, 0o644)
+	}
+}
+
+func (r *Report) Stat(k string)         { r.Stats[k]++ }
 func (r *Report) StatN(k string, n int) { r.Stats[k] += n }
 
 // Case records one executed case; key identifies it for the distinct count, nontrivial by the harness's rule.
@@ -164,6 +180,9 @@ func (r *Report) Add(f Finding) {
 func (r *Report) TooMany() bool { return r.oracleKept >= 6 || r.total >= 400 }
 
 func (r *Report) Write(path string) {
+	if CurrentFile != "" {
+		_ = os.Remove(CurrentFile) // the run got to its end: no case is in flight
+	}
 	r.Distinct = len(r.distinct)
 	r.WallS = time.Since(r.start).Seconds()
 	if r.Findings == nil {
